@@ -146,8 +146,8 @@ Print Assumptions hash_ok_inhabited.
         the Base32 / SS58 round-trip, alphabet and length laws are theorems there). *)
 From BU Require Import Gen.AddrTextConsts Model.AddrText.
 From BU Require Lemmas.AddrInst.
-Notation b32e := AddrInst.b32_enc_nopad.
-Notation b32d := AddrInst.b32_dec.
+Notation b32e := AddrCodecs.b32_enc_nopad.
+Notation b32d := AddrCodecs.b32_dec.
 
 Theorem algo_dec_enc : forall sha512_256 valid_pub pub s, hash_ok sha512_256 32 ->
   bytes_ok pub -> length pub = (ed25519_compr_len - 1)%nat -> valid_pub 2 pub = true ->
@@ -183,8 +183,8 @@ Print Assumptions nim_dec_enc.
 (* Substrate: SS58 of the public key under the coin's format (all formats the encoder accepts) *)
 Theorem substrate_dec_enc : forall blake2b512 valid_pub curve fmt pub s, hash_ok blake2b512 64 ->
   bytes_ok pub -> valid_pub curve pub = true ->
-  substrate_encode (AddrInst.ss58_enc blake2b512) fmt pub = Ok s ->
-  substrate_decode valid_pub (AddrInst.ss58_dec blake2b512) curve fmt s = Ok pub.
+  substrate_encode (AddrCodecs.ss58_enc blake2b512) fmt pub = Ok s ->
+  substrate_decode valid_pub (AddrCodecs.ss58_dec blake2b512) curve fmt s = Ok pub.
 Proof. intros b v c f p s [H1 H2]. exact (AddrInst.substrate_rt b v H1 H2 c f p s). Qed.
 Print Assumptions substrate_dec_enc.
 
